@@ -60,6 +60,21 @@ CHECKS['C05'] = dict(
     design='§5 C05',
     note=COMMON_NOTE + 'The initial value carried by a hint is opaque (placeholder); field.get_internal_type()/db_type tables are hand-written for the property field space and validated by correspondence.')
 
+CHECKS['C03'] = dict(
+    technique='Lean 4 proof (commutation + stable-regrouping soundness, rule lemmas, counterexamples) + exhaustive small-scope differential correspondence of the optimiser',
+    text=('Line-by-line Lean transliteration of AppMutator._preprocess_mutations (both loops, in-place rewrites returned '
+          'explicitly, KeyErrors as results). Proved for every batch of model-local mutations accepted one at a time: '
+          'mutations on different models commute and the stable regrouping by model name ends in the same signature '
+          '(C03_regroup_sound, C03_commute); add-then-delete elimination is semantics-preserving (C03_rule_add_delete); '
+          'kernel-checked counterexamples for the rewriting of definitions and the differing second pass (F4), '
+          'self-rename KeyError and name reuse (F20), initial overwrite (F21), regroup across RenameModel (F24). The '
+          'transliteration is validated against the real optimiser on every applicable sequence up to length 3 (quick) '
+          '/ 4 (thorough) of a 52-mutation alphabet and on random sequences up to length 12 (output list, every '
+          'original object after processing, second pass); outcome oracle on final signatures for all of them and on '
+          'schema + rows of a real SQLite database (bare AppMutator and Evolver pipeline) for a sample.'),
+    design='§5 C03',
+    note=COMMON_NOTE + 'C03_full (all interleavings of all rewrite rules) is not proved: the proved part is regrouping + individual rules; the rest is covered by the bounded exhaustive correspondence, which is a test, not a proof.')
+
 NOT_YET = {}
 
 
